@@ -140,6 +140,17 @@ class Check(PropertyCheck):
             s = bytes(w) + ashref.wire(("DATA", 1, 0, 0, b"z"))
             for mode in ("one", "bytes", "rand"):
                 cases.append(cut(s, rng, mode))
+        # CRC-valid DATA frames around and beyond the longest admissible data field (the receiver's only length check
+        # sits behind the CRC check): 256 bytes are delivered, more are rejected like any unparsable frame, and the
+        # frames after them in the same read are processed
+        for n in (255, 256, 257, 258, 300, 500):
+            body = bytes([0x00]) + bytes(rng.randrange(256) for _ in range(n))      # control byte DATA(0), n data bytes
+            w = ashref.stuff(ashref.with_crc(body)) + bytes([0x7E])
+            if len(w) > 1000:
+                continue
+            s = w + ashref.wire(("DATA", 1 if n <= 256 else 0, 0, 0, b"after"))
+            for mode in ("one", "bytes", "rand"):
+                cases.append(cut(s, rng, mode))
         # reads larger than the receive buffer that contain complete frames
         for nfr in ([12, 30] if tier == "quick" else [12, 20, 30, 60, 100]):
             fr = [ashref.wire(("DATA", k % 8, 0, 0, bytes([k]) + bytes(rng.randrange(256) for _ in range(90)))) for k in range(nfr)]
